@@ -70,6 +70,11 @@ CHECKS = {
          "Every bucket assignment x in-bucket hash function x insertion sequence (incl. duplicates) for 3-4 keys, 2 buckets and 2 hash domains is explored (found-with-value, duplicate => failure, absent keys answered only through a hash collision), the eytzinger layout / search transcription is checked for every population <= 33 / 70, and 6 300 case classes (3 formats x value sizes 1..252 x populations 1..60 000 incl. 2^k +- 1 and the 10 000-per-bucket boundary x declared count x insertion order x key shapes incl. empty and 65 535-byte keys x error classes) are built twice by the real builders (byte compare), every key is looked up and the sealed buckets are dumped by an independent parser; TLC judges outcome, lookups, determinism and on-disk layout.",
          "xxhash is an uninterpreted oracle in the model; quick replays all error classes, 6 large populations and 1 200 sampled classes; builds > 400 keys are judged on the conjunction of lookups and the entry count.",
          "DESIGN.md section 7, C04", "hashindex"),
+ "C05": ("model_checking",
+         "TLC exhaustive check of SigExists.tla (dedupe / sort / eytzinger / offsets) and MC_Eytz; real bucketteer writer and readers over structured bucket populations; TLC trace judge (Trace_SigExists.tla)",
+         "Every assignment of <= 3 (quick) / 4 (thorough) hashes with repetition to 2 prefixes is checked on the model (no false negative, no unexplained positive, writer agrees, contiguous offsets), the eytzinger transcription for every population <= 33 / 70; the real writer (one per process) is filled with bucket populations 0..4097 (2^k-1, 2^k, 2^k+1), 16 001 / 40 000 next to a populated prefix and at the end of the prefix space, duplicates, empty prefixes and random fill, for the current and the deprecated format, read through mmap Open and a plain ReaderAt, with an independent dump of the stored arrays and concurrent lookups on one reader; TLC judges every bucket.",
+         "64-bit hashes are carried to TLC as order-preserving ranks; xxhash is not modelled.",
+         "DESIGN.md section 7, C05", "sigexists"),
  "C06": ("model_checking",
          "TLC exhaustive check of code-shaped GsfaWriter.tla; TLC-simulated schedules forced on the real writer through hook gates; TLC trace judge (Trace_Gsfa.tla) over recorded read-backs",
          "Exhaustive TLC exploration of every push history x goroutine interleaving of the code-shaped writer model (thresholds shrunk), plus every TLC-generated schedule replayed step by step on the real writer with the same literals shrunk, real-constant runs around the 1000-entry batch size and the periodic flush, and records at both sides of the varint width boundaries; every recorded read-back is judged by TLC against the abstract property.",
@@ -77,6 +82,8 @@ CHECKS = {
          "DESIGN.md section 7, C06", "gsfa"),
 }
 ENGINES = [
+ {"name": "sigexists", "path": "spec/SigExists.tla", "serves_properties": ["C05"],
+  "kind_free_text": "TLA+ Util + SigExists + Trace_SigExists; Go harness/pkg/bucketteer/c05_test.go (child process per writer)"},
  {"name": "hashindex", "path": "spec/HashIndex.tla", "serves_properties": ["C04"],
   "kind_free_text": "TLA+ Util (eytzinger), HashIndexAbs/HashIndex, MC_Eytz, Gen_HashIndex, Trace_HashIndex; Go harness/pkg/compactindexsized/c04_test.go"},
  {"name": "rpcgrammar", "path": "spec/RpcGrammar.tla", "serves_properties": ["C08"],
